@@ -4,6 +4,7 @@ import (
 	"encoding/json"
 	"errors"
 	"fmt"
+	"io"
 	"sort"
 	"strings"
 
@@ -41,9 +42,24 @@ type c11Flt struct {
 	In   int    `json:"in,omitempty"`
 	Pos  int    `json:"pos"`
 	Perm bool   `json:"perm,omitempty"`
+	// Err: identity of the injected iterator error: 0 an opaque error, 1 io.EOF itself (what a reader returns when a
+	// data file ends before its index does), 2 an error wrapping io.EOF, 3 io.ErrUnexpectedEOF
+	Err int `json:"err,omitempty"`
 }
 
 var errC11 = errors.New("injected failure")
+
+func c11Err(id int) error {
+	switch id {
+	case 1:
+		return io.EOF
+	case 2:
+		return fmt.Errorf("injected read failure: %w", io.EOF)
+	case 3:
+		return io.ErrUnexpectedEOF
+	}
+	return errC11
+}
 
 type memIt struct {
 	recs   []kv
@@ -52,6 +68,7 @@ type memIt struct {
 	failAt int
 	perm   bool
 	fuse   int
+	errID  int
 	budget *int
 }
 
@@ -65,10 +82,10 @@ func (m *memIt) Next() ([]byte, []byte, error) {
 	if m.failAt >= 0 {
 		if m.perm && c >= m.failAt && m.fuse > 0 {
 			m.fuse--
-			return nil, nil, errC11
+			return nil, nil, c11Err(m.errID)
 		}
 		if !m.perm && c == m.failAt {
-			return nil, nil, errC11
+			return nil, nil, c11Err(m.errID)
 		}
 	}
 	if m.pos >= len(m.recs) {
@@ -106,7 +123,7 @@ func (c c11) Run(ctx *core.Ctx) error {
 		}
 	}
 	ctx.Ev.Level = "fault_enumeration"
-	ctx.Ev.Rule = "every list of k tables over {\"\",a,b} x {absent,value,tombstone} (as C08) x operation in {Merge (key-disjoint lists), MergeCompact with each exported reduction}; faults: every input iterator failing at every Next position (0..len, transient and permanent) and the output writer failing at every WriteNext position - all single faults and all pairs; oracle: the operation returns an error, or its recorded output equals the fault-free output. distinct = (list, operation, fault set); non-trivial = every case (each injects at least one fault)"
+	ctx.Ev.Rule = "every list of k tables over {\"\",a,b} x {absent,value,tombstone} (as C08) x operation in {Merge (key-disjoint lists), MergeCompact with each exported reduction}; faults: every input iterator failing at every Next position (0..len, transient and permanent; single faults with four error identities: opaque, io.EOF, wrapped io.EOF, io.ErrUnexpectedEOF) and the output writer failing at every WriteNext position - all single faults and all pairs; oracle: the operation returns an error, or its recorded output equals the fault-free output. distinct = (list, operation, fault set); non-trivial = every case (each injects at least one fault)"
 	ctx.Ev.Bounds["max_tables"] = maxK
 	ctx.Ev.Bounds["fault_pairs_up_to_tables"] = map[bool]int{false: 2, true: 3}[ctx.Tier == "thorough"]
 	ctx.Ev.Assume = []string{"component half only: faults are injected at the iterator / stream-writer interfaces the merger takes; flush and compaction at system level are covered by the syscall fault injector"}
@@ -215,7 +232,7 @@ func (c c11) checkList(list []int, cs c11Case, r *core.Result) {
 			it := &memIt{recs: in, failAt: -1, budget: &budget}
 			for _, f := range faults {
 				if f.Kind == "it" && f.In == i {
-					it.failAt, it.perm, it.fuse = f.Pos, f.Perm, 8
+					it.failAt, it.perm, it.fuse, it.errID = f.Pos, f.Perm, 8, f.Err
 				}
 			}
 			its = append(its, sstables.NewMergeIteratorContext(i, it))
@@ -257,6 +274,14 @@ func (c c11) checkList(list []int, cs c11Case, r *core.Result) {
 		} else {
 			for i := range fl {
 				sets = append(sets, []c11Flt{fl[i]})
+				if fl[i].Kind == "it" {
+					// the same single fault under the other error identities
+					for id := 1; id <= 3; id++ {
+						f := fl[i]
+						f.Err = id
+						sets = append(sets, []c11Flt{f})
+					}
+				}
 				for j := i + 1; j < len(fl) && !cs.NoPairs; j++ {
 					if fl[i].Kind == fl[j].Kind && fl[i].In == fl[j].In {
 						continue // one fault per iterator / writer
